@@ -1,10 +1,13 @@
 package harness
 
 import (
+	"bytes"
 	"fmt"
 	"strings"
 	"testing"
+	"time"
 
+	"verif/sim/simnet"
 	"verif/sim/simrt"
 )
 
@@ -125,6 +128,11 @@ func runC02(t *testing.T, c simrt.Chooser, o Opts) *Out {
 	}
 	w.NumCPU = p.pick("numcpu", 1, 2, 4, 16)
 	w.tcp = refuseAll
+	if s.Kind == "docker" || s.Kind == "elastic" {
+		// a third of the endpoints answer every request with a redirect to a host that is in no
+		// target set: following it means probing an address the user never specified
+		w.tcp = redirectSome
+	}
 	sc.World = w
 	var want map[probeKey]int
 	if !expectRefusal && variant != "huge-cancelled" {
@@ -294,4 +302,34 @@ func simrtFault(out *Out, kind string) {
 
 func init() {
 	register(&Suite{Name: "C02-confinement", Prop: "C02", Doc: "exclusion lists, 16-byte entry spellings, non-IPv4 target arguments, exclusion-file faults", Run: runC02})
+}
+
+// RedirectTarget is where the redirecting endpoints of C02 point; it is in no target set.
+const RedirectTarget = "203.0.113.99"
+
+func redirectSome(n *simnet.Net) {
+	n.Lookup = func(addr string) *simnet.Server {
+		h := uint64(0x9e37)
+		for _, c := range []byte(addr) {
+			h = mix64(h, uint64(c))
+		}
+		if h%3 != 0 || strings.HasPrefix(addr, RedirectTarget+":") {
+			return &simnet.Server{Mode: simnet.Refuse, ConnectTime: 200 * time.Microsecond}
+		}
+		return &simnet.Server{Mode: simnet.Accept, ConnectTime: 100 * time.Microsecond, Handler: func(c *simnet.TCPConn, rec *simnet.ConnRec) {
+			defer c.Close()
+			buf := make([]byte, 4096)
+			var req []byte
+			for !bytes.Contains(req, []byte("\r\n\r\n")) {
+				k, err := c.Read(buf)
+				req = append(req, buf[:k]...)
+				if err != nil {
+					return
+				}
+			}
+			simrt.Fault("http-redirect")
+			port := addr[strings.LastIndex(addr, ":")+1:]
+			fmt.Fprintf(c, "HTTP/1.1 307 Temporary Redirect\r\nLocation: http://%s:%s/\r\nContent-Length: 0\r\nConnection: close\r\n\r\n", RedirectTarget, port)
+		}}
+	}
 }
